@@ -52,7 +52,8 @@ def run(ctx):
                         "theorems about has_error / counts assume the tree satisfies Summarized (checked on every real tree by the correspondence) "
                         "and the parser shape invariant ShapeOK (checked on every real tree, reported as inv)"]
     ctx.regen()
-    ctx.prove(["TsVerif.C02.Props"], "TsVerif/C02/Audit.lean")
+    ctx.extra_lean_dirs = ["C10"]
+    ctx.prove(["TsVerif.C02.Props", "TsVerif.C02.EditProps"], "TsVerif/C02/Audit.lean")
     driver = ctx.build_driver("tsv-c02")
     explorer = ctx.cargo_bin("c02")
     langdump = ctx.cunit("cunit_c02")
